@@ -1574,6 +1574,40 @@ def _collect_try_structure(lines: List[str], start: int) -> Tuple[List[str], int
     return snippet, i
 
 
+def _function_local_names(block: List[str]) -> Set[str]:
+    """Names a function body binds without declaring them ``global`` (Python locals)."""
+
+    import textwrap
+
+    code_lines = [
+        line for line in block if line.strip() and not line.lstrip().startswith("#")
+    ]
+    try:
+        tree = ast.parse(textwrap.dedent("\n".join(code_lines)))
+    except SyntaxError:
+        return set()
+
+    bound: Set[str] = set()
+    declared_global: Set[str] = set()
+
+    def collect(target: ast.AST) -> None:
+        if isinstance(target, ast.Name):
+            bound.add(target.id)
+        elif isinstance(target, (ast.Tuple, ast.List)):
+            for elt in target.elts:
+                collect(elt)
+
+    for node in ast.walk(tree):
+        if isinstance(node, ast.Global):
+            declared_global.update(node.names)
+        elif isinstance(node, ast.Assign):
+            for target in node.targets:
+                collect(target)
+        elif isinstance(node, (ast.AugAssign, ast.For)):
+            collect(node.target)
+    return bound - declared_global
+
+
 def _parse_function(
     name: str,
     params_src: str,
@@ -1638,6 +1672,15 @@ def _parse_function(
     child_ctx["functions"] = functions_map
     if "tmp_counter" in ctx:
         child_ctx["tmp_counter"] = ctx["tmp_counter"]
+
+    # Names assigned in the body are locals of the function unless declared
+    # ``global``: they must not reuse a same-named top-level variable.
+    for local_name in _function_local_names(block):
+        if local_name in child_ctx["var_types"]:
+            child_ctx["vars"].pop(local_name, None)
+            child_ctx["var_types"].pop(local_name, None)
+            child_ctx["var_declared"].discard(local_name)
+            child_ctx["_base_declared"].discard(local_name)
 
     fn_meta: Dict[str, object] = {"return_types": [], "has_void": False}
     child_ctx["current_function"] = fn_meta
